@@ -69,6 +69,20 @@ theorem lookup_filter_ne (ts : List Tube) (k k' : Key) (h : k' ≠ k) :
     · rw [List.filter_cons_of_neg (by simp [hu]), List.find?_cons_of_neg (by simp [hu, h]), ih]
     · rw [List.filter_cons_of_pos (by simp [hu]), List.find?_cons, List.find?_cons, ih]
 
+theorem lookup_setTube_self (ts : List Tube) (t u : Tube) (h : lookup ts t.key = some u) :
+    lookup (setTube ts t) t.key = some t := by
+  unfold lookup setTube at *
+  induction ts with
+  | nil => cases h
+  | cons v vs ih =>
+    rw [List.find?_cons] at h
+    rw [List.map_cons, List.find?_cons]
+    by_cases hv : v.key = t.key
+    · simp [hv]
+    · simp only [hv, decide_false] at h
+      simp only [hv, if_false, decide_false]
+      exact ih h
+
 /-! ### pickTubeID -/
 
 theorem pickFrom_spec (ts : List Tube) (rel : Bool) : ∀ (fuel g id : Nat), pickFrom ts rel fuel g = some id →
@@ -219,5 +233,131 @@ theorem step_local (m : Mux) (ev : MEv) (k : Key) (hk : target m ev ≠ some k) 
       exact key _ h
     · rename_i m' o h
       exact key _ h
+
+/-! ### keys stay distinct -/
+
+def KeysNodup (m : Mux) : Prop := (m.tubes.map Tube.key).Nodup
+
+theorem onFrame_keys (m : Mux) (f : Frame) (m' : Mux) (h : onFrame m f = .ok m') (hn : KeysNodup m) :
+    KeysNodup m' ∧
+    (m'.queue = m.queue ∨
+      ∃ t, m'.queue = m.queue ++ [t] ∧ f.req = true ∧ lookup m.tubes (f.rel, f.tubeID) = none ∧
+        t.rel = f.rel ∧ t.id = f.tubeID ∧ t.ttype = initType f ∧ (lookup m'.tubes (f.rel, f.tubeID)).isSome) := by
+  unfold onFrame at h
+  split at h
+  · rename_i t ht
+    obtain ⟨t', h1, h2⟩ := deliver_total t f
+    rw [h1] at h
+    simp only [Outcome.bind, Outcome.ok.injEq] at h
+    subst h
+    exact ⟨by unfold KeysNodup; rw [setTube_keys]; exact hn, Or.inl rfl⟩
+  · rename_i hnone
+    split at h
+    · rename_i hc
+      obtain ⟨t', h1, h2⟩ := deliver_total (newTube f.rel f.tubeID (initType f) false) f
+      simp only [] at h
+      rw [h1] at h
+      simp only [Outcome.bind, Outcome.ok.injEq] at h
+      subst h
+      simp only [Bool.and_eq_true, decide_eq_true_eq] at hc
+      refine ⟨?_, Or.inr ⟨_, rfl, hc.1.1, hnone, rfl, rfl, rfl, ?_⟩⟩
+      · unfold KeysNodup
+        simp only [List.map_cons]
+        refine List.nodup_cons.mpr ⟨?_, hn⟩
+        rw [h2]
+        exact (lookup_none_iff _ _).mp hnone
+      · have : t'.key = (f.rel, f.tubeID) := h2
+        simp [lookup, List.find?_cons, this]
+    · cases h; exact ⟨hn, Or.inl rfl⟩
+
+theorem step_keys (m : Mux) (ev : MEv) (hn : KeysNodup m) : KeysNodup (mStep m ev).1 := by
+  cases ev with
+  | raw b =>
+    simp only [mStep]
+    split
+    · rename_i m' h
+      unfold onRaw at h
+      split at h
+      · exact (onFrame_keys m _ m' h hn).1
+      · cases h; exact hn
+      · cases h
+    · exact hn
+  | create rel ty =>
+    simp only [mStep]
+    split
+    · rename_i m' id h
+      obtain ⟨h1, _, _, h4, _⟩ := create_spec h
+      show (m'.tubes.map Tube.key).Nodup
+      rw [h4]
+      simp only [List.map_cons]
+      exact List.nodup_cons.mpr ⟨(lookup_none_iff _ _).mp h1, hn⟩
+    · rename_i m' h
+      unfold create at h
+      split at h
+      · cases h; exact hn
+      · split at h
+        · cases h
+        · cases h; exact hn
+  | accept =>
+    simp only [mStep, accept]
+    split
+    · rename_i m' t h
+      split at h
+      · cases h
+      · simp only [Prod.mk.injEq, Option.some.injEq] at h
+        obtain ⟨rfl, rfl⟩ := h
+        show ((List.map _ m.tubes).map Tube.key).Nodup
+        rw [map_held_keys]; exact hn
+    · rename_i m' h
+      split at h
+      · cases h; exact hn
+      · cases h
+  | reap k =>
+    simp only [mStep, reap]
+    have hf : ((m.tubes.filter (·.key ≠ k)).map Tube.key).Nodup :=
+      (List.filter_sublist.map Tube.key).nodup hn
+    split
+    · rename_i m' h
+      split at h
+      · split at h
+        · cases h; exact hf
+        · cases h
+      · cases h
+    · rename_i m' h
+      split at h
+      · split at h
+        · cases h
+        · cases h; exact hn
+      · cases h; exact hn
+  | read k n =>
+    simp only [mStep]
+    have key : ∀ r, readTube m k n = r → KeysNodup r.1 := by
+      intro r hr
+      unfold readTube at hr
+      split at hr
+      · subst hr; exact hn
+      · split at hr
+        · subst hr; exact hn
+        · split at hr
+          · subst hr; exact hn
+          · split at hr
+            · split at hr
+              · subst hr; exact hn
+              · subst hr; unfold KeysNodup; rw [setTube_keys]; exact hn
+            · split at hr
+              · subst hr; unfold KeysNodup; rw [setTube_keys]; exact hn
+              · split at hr <;> (subst hr; exact hn)
+    split
+    · rename_i m' b fl h; exact key _ h
+    · rename_i m' o h; exact key _ h
+
+theorem run_keys : ∀ (evs : List MEv) (m : Mux), KeysNodup m → KeysNodup (mRun m evs).1 := by
+  intro evs
+  induction evs with
+  | nil => intro m h; exact h
+  | cons e rest ih =>
+    intro m h
+    simp only [mRun]
+    exact ih _ (step_keys m e h)
 
 end Tubes
